@@ -51,7 +51,7 @@ def judge(ctx, cases, impl):
 def run(ctx):
     g = G(ctx.seed)
     reps = 8 if ctx.tier == 'quick' else 40
-    cases = gen(g, 30 if ctx.tier == 'quick' else 500, reps)
+    cases = gen(g, 120 if ctx.tier == 'quick' else 500, reps)
     impl, model = run_apps(ctx, cases)
     judge(ctx, cases, impl)
     ctx.notes.append('each invocation repeated %d times in-process' % reps)
